@@ -161,7 +161,12 @@ FViol(ev, r, ln) ==
     (IF ev.status # 0 THEN <<[l |-> ln, prop |-> "C16,C03", ctx |-> Ctx(r), k |-> ev.k, what |-> IF ev.status = 99999 THEN "the API calls do not terminate after an output system call failed (endless loop)"
                                                                                                     ELSE "process died when an output system call failed"]>> ELSE <<>>)
     \o (IF w.unrep = {} THEN <<>>
-        ELSE <<[l |-> ln, prop |-> "C16", ctx |-> Ctx(r), k |-> ev.k, kind |-> sc.kind, comp |-> sc.comp, target |-> sc.target,
+        \* a SHORT write is no failure of the output at all (the system took a part, the rest can be offered again): an output
+        \* that was closed normally after one, without any exception, and is not a complete document also violates C02
+        ELSE <<[l |-> ln, prop |-> IF ev.fault = "short" /\ \E x \in Range(ev.outs) : /\ x.final /\ ~x.old /\ x.o \in w.unrep
+                                                                                      /\ (~x.stream_ok \/ x.fin \notin {"eof", "empty"})
+                                   THEN "C16,C02" ELSE "C16",
+                ctx |-> Ctx(r), k |-> ev.k, kind |-> sc.kind, comp |-> sc.comp, target |-> sc.target,
                 fault |-> ev.fault, persistent |-> ev.persistent, phase |-> FaultPhase(ev.log), symptom |-> "unreported",
                 what |-> "rotate_output returned normally for an output that lost bytes and no API call had thrown", outputs |-> w.unrep]>>)
     \o (IF ~(hasRecover /\ w.blockExc /\ sc.target = "exporter") THEN <<>>
